@@ -775,7 +775,7 @@ func (c *compiler) evalCallExpression(node *ast.CallExpression) (interface{}, er
 	}
 
 	rt := rv.Type()
-	if rt.Kind() != reflect.Func {
+	if rt.Kind() != reflect.Func || rv.IsNil() {
 		return nil, fmt.Errorf("%+v (%T) is an invalid function", node.String(), rt)
 	}
 	rtNumIn := rt.NumIn()
